@@ -115,4 +115,160 @@ def clone_unit():
     return Unit('Task.clone', F, build, ['C10'], timeout_ms=15000)
 
 
-UNITS = [clone_unit()]
+
+
+# ---------------------------------------------------------------------------------------------------------------- WBS.__clone / clone
+# The new-WBS assembly and the WBS attribute copy (C10, src/pjplan/wbs.py).  WBS instance attributes are a per-object map as for tasks; the
+# dict returned by __clone_tasks is an abstract value with `has` / `get` keyed by the (abstract) id value; what the roots setter was handed
+# is recorded in the ghost field `$rootsval` of the receiving WBS.
+FW = 'pjplan/wbs.py'
+WBSR = REF('WBS'); LT_ = LIST(TASK); DICT = S('IdDict', DeclareSort('IdDict'))
+dhas = Function('iddict_has', DICT.z, VAL.z, BoolSort()); dget = Function('iddict_get', DICT.z, VAL.z, TASK.z)
+keys_ofW = Function('wbs_dict_keys', WBSR.z, LS.z)
+tidv = lambda eng, st, t: Select(eng.field(st, 'Task', '$id'), t)
+W_CLASSES = {'WBS': {'$has': S('SMapB', SMAP_B), '$attrs': S('SMapV', SMAP_V), '$alloc': BOOL, '$rootsval': LT_},
+             'Task': {'$id': VAL}}
+w_ = Const('w_', WBSR.z); j_ = Int('j_')
+PRIVATE_ROOT = '_WBS__root'
+
+
+class WbsClonePlugin:
+    def call(self, eng, e, st):
+        f = e.func
+        if isinstance(f, ast.Attribute) and f.attr == 'keys' and isinstance(f.value, ast.Attribute) and f.value.attr == '__dict__':
+            s, o = eng.ev1(f.value.value, st)
+            if o.s != WBSR: raise Unsupported('__dict__ of ' + str(o.s))
+            return [(s, V(keys_ofW(o.e), LS))]
+        if isinstance(f, ast.Attribute) and f.attr == '__getattribute__' and len(e.args) == 1:
+            s, o = eng.ev1(f.value, st); s, n = eng.ev1(e.args[0], s)
+            if o.s != WBSR: raise Unsupported('__getattribute__ on ' + str(o.s))
+            s.oblige('safe/AttributeError-missing-attribute', Select(eng.field(s, 'WBS', '$has'), o.e)[n.e], f'@{e.lineno}')
+            return [(s, V(Select(eng.field(s, 'WBS', '$attrs'), o.e)[n.e], VAL))]
+        if isinstance(f, ast.Attribute) and f.attr == '__setattr__' and len(e.args) == 2:
+            s, o = eng.ev1(f.value, st); s, n = eng.ev1(e.args[0], s); s, v = eng.ev1(e.args[1], s)
+            if o.s != WBSR: raise Unsupported('__setattr__ on ' + str(o.s))
+            s.oblige('safe/AttributeError-None', o.e != WBSR.null, f'@{e.lineno}')
+            hf = eng.field(s, 'WBS', '$has'); af = eng.field(s, 'WBS', '$attrs')
+            eng.write(s, 'WBS.$has', Store(hf, o.e, Store(hf[o.e], n.e, BoolVal(True))))
+            eng.write(s, 'WBS.$attrs', Store(af, o.e, Store(af[o.e], n.e, v.e)))
+            return [(s, V(None, NONE))]
+        if isinstance(f, ast.Name) and f.id == 'WBS':
+            # WBS(): assumed contract of the constructor in terms of the attribute map - a fresh object whose only instance attribute is the private `_WBS__root`
+            if e.args or e.keywords: raise Unsupported('WBS(...) with arguments')
+            n = fresh('newwbs', WBSR); al = eng.field(st, 'WBS', '$alloc')
+            st.assume(And(n != WBSR.null, Not(al[n])))
+            nh = fresh('has', S('SMapB', SMAP_B))
+            st.assume(ForAll([k_], nh[k_] == (k_ == StringVal(PRIVATE_ROOT)), patterns=[nh[k_]]))
+            eng.write(st, 'WBS.$has', Store(eng.field(st, 'WBS', '$has'), n, nh)); eng.write(st, 'WBS.$alloc', Store(al, n, BoolVal(True)))
+            eng.write(st, 'WBS.$rootsval', Store(eng.field(st, 'WBS', '$rootsval'), n, fresh('noroots', LT_)))
+            return [(st, V(n, WBSR))]
+        return NotImplemented
+
+    def ev_Subscript(self, eng, e, st):
+        s, o = eng.ev1(e.value, st)
+        if o.s != DICT: return NotImplemented
+        s, key = eng.ev1(e.slice, s)
+        if key.s != VAL: raise Unsupported('dict key of sort ' + str(key.s))
+        s.oblige('safe/KeyError-no-clone-under-this-id', dhas(o.e, key.e), f'@{e.lineno}')
+        return [(s, V(dget(o.e, key.e), TASK))]
+
+    def ev_ListComp(self, eng, e, st):
+        # [ELT(r) for r in xs] without condition: a list of the same length whose i-th element is ELT(xs[i]); ELT is evaluated by the engine
+        # for the element at an arbitrary position j, so its own obligations (KeyError, None) are obliged for every position
+        g = e.generators[0]
+        if len(e.generators) != 1 or g.ifs or not isinstance(g.target, ast.Name): raise Unsupported('comprehension form')
+        s, xs = eng.ev1(g.iter, st)
+        if xs.s != LT_: raise Unsupported('comprehension over ' + str(xs.s))
+        j = fresh('pos', INT); saved = s.env.get(g.target.id)
+        s.assume(LT_.len(xs.e) >= 0)
+        body = s.fork(And(0 <= j, j < LT_.len(xs.e))); body.env = dict(s.env); body.env[g.target.id] = V(LT_.at(xs.e, j), TASK)
+        outs = eng.ev(e.elt, body)
+        if len(outs) != 1 or isinstance(outs[0][1], Raise): raise Unsupported('comprehension element with several outcomes')
+        s3, v = outs[0]
+        if v.s != TASK: raise Unsupported('comprehension element of sort ' + str(v.s))
+        R = fresh('comp', LT_)
+        s.assume(And(LT_.len(R) == LT_.len(xs.e),
+                     ForAll([j_], Implies(And(0 <= j_, j_ < LT_.len(R)), LT_.at(R, j_) == substitute(v.e, (j, j_))), patterns=[LT_.at(R, j_)])))
+        return [(s, V(R, LT_))]
+
+
+def wbs_clone_unit():
+    def build():
+        fld = lambda c, cl, f, which='cur': c.fld(cl, f, which)
+        pub = lambda k: Not(PrefixOf(StringVal('_'), k))
+        ids = lambda c: fld(c, 'Task', '$id')
+
+        def pre(c):
+            me = c['self']; has = fld(c, 'WBS', '$has')[me]; R = c['roots']
+            return And(me != WBSR.null, fld(c, 'WBS', '$alloc')[me], LT_.len(R) >= 0,
+                       ForAll([j_], Implies(And(0 <= j_, j_ < LT_.len(R)), LT_.at(R, j_) != TASK.null), patterns=[LT_.at(R, j_)]),
+                       ForAll([k_], memS(keys_ofW(me), k_) == has[k_], patterns=[memS(keys_ofW(me), k_)]))
+
+        def c_clone_tasks(eng, st, recv, a, k, n):
+            # ASSUMED contract of WBS.__clone_tasks (bounded stand-in only): a dict with an entry under the id of every given root; no WBS attribute is touched
+            d = fresh('cloned', DICT); R = a[0].e
+            st.oblige('call/__clone_tasks/roots-are-tasks', ForAll([j_], Implies(And(0 <= j_, j_ < LT_.len(R)), LT_.at(R, j_) != TASK.null)), f'@{n.lineno}')
+            st.assume(ForAll([j_], Implies(And(0 <= j_, j_ < LT_.len(R)), dhas(d, tidv(eng, st, LT_.at(R, j_)))), patterns=[LT_.at(R, j_)]))
+            return [(st, V(d, DICT))]
+
+        def c_set_roots(eng, st, recv, a, k, n):
+            # roots setter (proved in graph terms by its own unit, contracts/children.py): here only what it was handed is recorded; it may refuse
+            ok = st.fork(); rej = st.fork()
+            eng.write(ok, 'WBS.$rootsval', Store(eng.field(ok, 'WBS', '$rootsval'), recv.e, a[0].e))
+            return [(ok, V(None, NONE)), (rej, Raise('RuntimeError'))]
+
+        def inv(c):
+            me = c['self']; cp = c['cloned_project']; KL = keys_ofW(me); i = c['_i0']
+            has0, at0 = fld(c, 'WBS', '$has', 'pre'), fld(c, 'WBS', '$attrs', 'pre'); has1, at1 = fld(c, 'WBS', '$has'), fld(c, 'WBS', '$attrs')
+            return And(i >= 0, i <= LS.len(KL), cp != WBSR.null, cp != me, Not(fld(c, 'WBS', '$alloc', 'pre')[cp]),
+                       ForAll([w_], Implies(w_ != cp, And(has1[w_] == has0[w_], at1[w_] == at0[w_])), patterns=[has1[w_]]),
+                       ForAll([k_], Implies(has1[cp][k_], Or(k_ == StringVal(PRIVATE_ROOT), And(memS(KL, k_), pub(k_)))), patterns=[has1[cp][k_]]),
+                       ForAll([k_], Implies(And(memS(KL, k_), idxS(KL, k_) < i, pub(k_)), And(has1[cp][k_], at1[cp][k_] == at0[me][k_])), patterns=[memS(KL, k_)]))
+        res = lambda c: c.result.e
+
+        def roots_post(c):
+            L = fld(c, 'WBS', '$rootsval')[res(c)]; R = c['roots']; d = c['cloned_tasks']
+            return And(LT_.len(L) == LT_.len(R),
+                       ForAll([j_], Implies(And(0 <= j_, j_ < LT_.len(R)), LT_.at(L, j_) == dget(d, ids(c)[LT_.at(R, j_)]))))
+        fc = {'sig': {'self': WBSR, 'roots': LT_}, 'locals': {'k': STR, 'cloned_project': WBSR, 'cloned_tasks': DICT},
+              'requires': [('pre', pre)], 'raises': {'RuntimeError': []},
+              'loops': {0: {'fingerprint': 'for k in self.__dict__.keys()', 'invariant': [('attributes-copied-so-far', inv)], 'havoc_heap': ['WBS.$has', 'WBS.$attrs']}},
+              'ensures': [('C10/copy-is-a-new-WBS', lambda c: And(res(c) != WBSR.null, res(c) != c['self'], Not(fld(c, 'WBS', '$alloc', 'pre')[res(c)]))),
+                          ('C10/roots-of-the-copy-are-the-clones-of-the-given-roots-in-order', roots_post),
+                          ('C10/every-public-WBS-attribute-carried-over-and-no-other', lambda c: ForAll([k_], Implies(pub(k_), And(
+                              fld(c, 'WBS', '$has')[res(c)][k_] == fld(c, 'WBS', '$has', 'pre')[c['self']][k_],
+                              Implies(fld(c, 'WBS', '$has', 'pre')[c['self']][k_], fld(c, 'WBS', '$attrs')[res(c)][k_] == fld(c, 'WBS', '$attrs', 'pre')[c['self']][k_]))))),
+                          ('C10/source-WBS-and-every-other-WBS-keep-their-attributes', lambda c: ForAll([w_], Implies(fld(c, 'WBS', '$alloc', 'pre')[w_], And(
+                              fld(c, 'WBS', '$has')[w_] == fld(c, 'WBS', '$has', 'pre')[w_], fld(c, 'WBS', '$attrs')[w_] == fld(c, 'WBS', '$attrs', 'pre')[w_]))))]}
+        contracts = {'prop:Task.id': lambda eng, st, recv, a, k, n: (st.oblige('safe/AttributeError-None', recv.e != TASK.null, f'.id @{n.lineno}'), [(st, V(tidv(eng, st, recv.e), VAL))])[1],
+                     'WBS._WBS__clone_tasks': c_clone_tasks, 'setprop:WBS.roots': c_set_roots}
+        return Engine(FW, 'WBS.__clone', contracts, W_CLASSES, fc, plugins=[WbsClonePlugin()]), AX
+    return Unit('WBS.__clone', FW, build, ['C10'], timeout_ms=15000)
+
+
+cloneof = Function('wbs_clone_of', WBSR.z, LT_.z, WBSR.z)          # what WBS.__clone(self, roots) returns (its contract is proved by the unit above)
+rootsof = Function('wbs_roots_value', WBSR.z, LT_.z)
+
+
+def wbs_clone_entry_unit():
+    """WBS.clone: hands exactly its own root list to __clone and returns what that returns."""
+    def build():
+        def c_roots(eng, st, recv, a, k, n):
+            R = rootsof(recv.e)          # list invariant of the hidden root's children (Inv of the graph units): tasks, never None
+            st.assume(And(LT_.len(R) >= 0, ForAll([j_], Implies(And(0 <= j_, j_ < LT_.len(R)), LT_.at(R, j_) != TASK.null), patterns=[LT_.at(R, j_)])))
+            return [(st, V(R, LT_))]
+
+        def c_clone(eng, st, recv, a, k, n):
+            R = a[0].e
+            st.oblige('call/__clone/pre/receiver-is-a-live-WBS', And(recv.e != WBSR.null, Select(eng.field(st, 'WBS', '$alloc'), recv.e)), f'@{n.lineno}')
+            st.oblige('call/__clone/pre/roots-are-tasks', ForAll([j_], Implies(And(0 <= j_, j_ < LT_.len(R)), LT_.at(R, j_) != TASK.null)), f'@{n.lineno}')
+            ok = st.fork(); rej = st.fork()
+            return [(ok, V(cloneof(recv.e, R), WBSR)), (rej, Raise('RuntimeError'))]
+        fc = {'sig': {'self': WBSR}, 'locals': {}, 'raises': {'RuntimeError': []},
+              'requires': [('pre', lambda c: And(c['self'] != WBSR.null, c.fld('WBS', '$alloc')[c['self']]))],
+              'ensures': [('C10/clone-copies-exactly-the-root-list-of-this-WBS', lambda c: c.result.e == cloneof(c['self'], rootsof(c['self'])))]}
+        return Engine(FW, 'WBS.clone', {'prop:WBS.roots': c_roots, 'WBS._WBS__clone': c_clone}, W_CLASSES, fc, plugins=[WbsClonePlugin()]), AX
+    return Unit('WBS.clone', FW, build, ['C10'], timeout_ms=15000)
+
+
+UNITS = [clone_unit(), wbs_clone_unit(), wbs_clone_entry_unit()]
